@@ -834,6 +834,18 @@ def kinds(A):
             if is_role(w["key"], "sigtarget") and (set(w["to"]) & C["Ready"]):
                 rk.add(k)
     if len(rk) != 1:
+        # the class the start event accepts may be wider than what is offered (that is C20's business): take the kind whose
+        # handler puts its own job into the set of offered jobs
+        from rules_protocol import set_fields as _set_fields
+        ready_f_, _cf = _set_fields(A)
+        rk2 = set()
+        for (k, s), run in H.items():
+            for v in run.by_kind("set_op"):
+                if v["op"] == "insert" and v["target"] == ("self", ready_f_) and v["elem"][0] in ("key", "str"):
+                    rk2.add(k)
+        if len(rk2) == 1:
+            rk = rk2
+    if len(rk) != 1:
         raise Imprecision("cannot identify the ready signal (%r)" % rk)
     K["ready"] = list(rk)[0]
     A.__dict__["_kinds"] = K
@@ -1108,51 +1120,9 @@ def check_C07(A, R, tier):
         runs = A.startup_runs() if name == "event_startup" else ([A.joined_run(b)] if name == "abort_remaining" else list(A.event_runs(name).values()))
         bad = [v for r_ in runs for v in r_.by_kind("push_signal") if K["upfail"] in v["kinds"]]
         R.ob("R7.4", "%s | does not signal upstream failure itself" % name, not bad)
-    # R7.7: a job that has not been started and is not yet failed-like, when told that a direct upstream failed, ends upstream-failed
-    # (it must not stay 'skipped' or pending); exempt: finished states of the cleanup kind (Ephemerals nobody needs stay skipped)
-    cleanup_kinds = set(A.kind_of(x) for x in C["CleanupOffered"])
-    n = 0
-    for s in sorted(A.reach()):
-        if s in C["FailedLike"] or s in C["Running"] or not reachable_without_running(A, s):
-            continue
-        if s in C["Finished"] and A.kind_of(s) in cleanup_kinds:
-            continue
-        run = H[(K["upfail"], s)]
-        okp = iteration_completes(A, run)
-        ws = [w for w in run.by_kind("write_state") if is_role(w["key"], "sigtarget") and s in w["frm"]]
-        n += 1
-        ok = (not okp) or (bool(ws) and all(set(w["to"]) <= UF for w in ws))
-        why = "the handler returns normally and leaves the job in %s: it is reported as %s although a direct upstream failed" % (
-            A.sname(s), "skipped/succeeded" if s in C["Finished"] else "pending")
-        if ok and okp and ws:
-            res = [forall_loop_taken(A, run, w) for w in ws]
-            if not any(r_[0] for r_ in res):
-                ok, why = False, "the re-classification is not on every path of the handler: " + res[0][1]
-        R.ob("R7.7", "upstream-failure handler | %s | a not-yet-started job is re-classified upstream-failed" % A.sname(s), ok, detail=why,
-             skey="upstream-failure handler | own job %s must end upstream-failed" % describe_state(A, s))
-    R.floor("R7.7", "not-yet-started, not failed-like states", n, 5)
-    # R7.8: an upstream-failed sibling does not hide a downstream that needs the Ephemeral (necessary for 'jobs without a failed
-    # ancestor behave as without failures')
+    rule_upstream_failure_reclassifies(A, R, "R7.7")
     rule_undecided_downstream(A, R, None, "R7.8")
-    # ... and a dependency flagged as needed makes the summary answer 'needed' whatever state its downstream is in (an upstream-failed
-    # consumer does not un-flag it: the decision functions behind the summary rely on that)
-    try:
-        from rules_c04 import summary_table
-        for tab in summary_table(A):
-            flagged = {}
-            for (d, c), e in tab["table"].items():
-                for i_, x in enumerate(c):
-                    flagged.setdefault((i_, x), []).append((d, e))
-            decisive = [(i_, x) for (i_, x), lst in flagged.items()
-                        if sum(1 for (d, e) in lst if len(e["early"]) == 1 and not e["cont"]) >= 0.8 * len(lst) and len(set(tuple(sorted(e["early"])) for (d, e) in lst if not e["cont"])) == 1
-                        and any(e["early"] and not e["cont"] for (d, e) in lst)]
-            for (i_, x) in decisive:
-                bad = [A.sname(d) for (d, e) in flagged[(i_, x)] if e["cont"] or len(e["early"]) != 1]
-                R.ob("R7.8", "%s | a dependency whose flag %s is %s decides the answer for every downstream state" % (
-                    short(tab["fn"].name), A.L.edge_fields[i_]["name"] if i_ < len(A.L.edge_fields) else i_, A.uni.show(tab["flag_ty"][i_], x)),
-                    not bad, detail="for a downstream in %s the flag is passed over" % bad[:3])
-    except ImportError:
-        pass
+    rule_needed_flag_decides(A, R, "R7.8")
     # R7.9 (= R3.3): a job is validated (and its consumers released) only when every upstream is finished or a validated Ephemeral that
     # has not been offered: otherwise a failure of a running upstream cannot stop the consumers any more
     from rules_compare import rule_validation_verdict
@@ -1171,6 +1141,60 @@ def check_C07(A, R, tier):
                      "from never-offered states, and are final; the signal is sent only to direct downstreams of a job just marked "
                      "failed.  Not decided: that jobs without failed ancestors behave exactly as in the failure-free evaluation.")
     R.assume("the twin-run clause (\"executed or skipped exactly as without failures\") is not decided statically")
+
+
+def rule_upstream_failure_reclassifies(A, R, rule):
+    """a job that has not been started and is not yet failed-like, when told that a direct upstream failed, ends upstream-failed (it
+    must not stay 'skipped' or pending); exempt: finished states of the cleanup kind (Ephemerals nobody needs stay skipped)"""
+    C = A.classes()
+    K = kinds(A)
+    H = A.handler_runs()
+    UF = C["UpstreamFailed"]
+    cleanup_kinds = set(A.kind_of(x) for x in C["CleanupOffered"])
+    n = 0
+    for s in sorted(A.reach()):
+        if s in C["FailedLike"] or s in C["Running"] or not reachable_without_running(A, s):
+            continue
+        if s in C["Finished"] and A.kind_of(s) in cleanup_kinds:
+            continue
+        run = H[(K["upfail"], s)]
+        okp = iteration_completes(A, run)
+        ws = [w for w in run.by_kind("write_state") if is_role(w["key"], "sigtarget") and s in w["frm"]]
+        n += 1
+        ok = (not okp) or (bool(ws) and all(set(w["to"]) <= UF for w in ws))
+        why = "the handler returns normally and leaves the job in %s: it is reported as %s although a direct upstream failed" % (
+            A.sname(s), "skipped/succeeded" if s in C["Finished"] else "pending")
+        if ok and okp and ws:
+            res = [forall_loop_taken(A, run, w) for w in ws]
+            if not any(r_[0] for r_ in res):
+                ok, why = False, "the re-classification is not on every path of the handler: " + res[0][1]
+        R.ob(rule, "upstream-failure handler | %s | a not-yet-started job is re-classified upstream-failed" % A.sname(s), ok, detail=why,
+             skey="upstream-failure handler | own job %s must end upstream-failed" % describe_state(A, s))
+    R.floor(rule, "not-yet-started, not failed-like states", n, 5)
+
+
+def rule_needed_flag_decides(A, R, rule):
+    """a dependency flagged as needed makes the requirement summary answer 'needed' whatever state its downstream is in (an
+    upstream-failed consumer does not un-flag it: the decision functions behind the summary rely on that)"""
+    # ... and a dependency flagged as needed makes the summary answer 'needed' whatever state its downstream is in (an upstream-failed
+    # consumer does not un-flag it: the decision functions behind the summary rely on that)
+    try:
+        from rules_c04 import summary_table
+        for tab in summary_table(A):
+            flagged = {}
+            for (d, c), e in tab["table"].items():
+                for i_, x in enumerate(c):
+                    flagged.setdefault((i_, x), []).append((d, e))
+            decisive = [(i_, x) for (i_, x), lst in flagged.items()
+                        if sum(1 for (d, e) in lst if len(e["early"]) == 1 and not e["cont"]) >= 0.8 * len(lst) and len(set(tuple(sorted(e["early"])) for (d, e) in lst if not e["cont"])) == 1
+                        and any(e["early"] and not e["cont"] for (d, e) in lst)]
+            for (i_, x) in decisive:
+                bad = [A.sname(d) for (d, e) in flagged[(i_, x)] if e["cont"] or len(e["early"]) != 1]
+                R.ob(rule, "%s | a dependency whose flag %s is %s decides the answer for every downstream state" % (
+                    short(tab["fn"].name), A.L.edge_fields[i_]["name"] if i_ < len(A.L.edge_fields) else i_, A.uni.show(tab["flag_ty"][i_], x)),
+                    not bad, detail="for a downstream in %s the flag is passed over" % bad[:3])
+    except ImportError:
+        pass
 
 
 def signal_loop(A, run):
